@@ -214,7 +214,28 @@ theorem lastTime_gt (l : List α) (f g : α → Rat) (hfg : ∀ x ∈ l, f x ≤
     split
     · linarith
     · rename_i hne
-      have : maxL (f a) (as.map f) < maxL (g a) (as.map g) := lt_of_le_of_ne hle hne
+      -- not close: the latest offset exceeds the latest onset by more than the (non-negative) tolerance
+      have hne' : ¬ (absR (maxL (f a) (as.map f) - maxL (g a) (as.map g))
+          ≤ 1 / 100000000 + 1 / 100000 * absR (maxL (g a) (as.map g))) := by
+        simpa [isClose] using hne
+      have habs : ∀ y : Rat, 0 ≤ absR y := by
+        intro y; unfold absR; split <;> linarith
+      have hd : absR (maxL (f a) (as.map f) - maxL (g a) (as.map g))
+          = maxL (g a) (as.map g) - maxL (f a) (as.map f) := by
+        unfold absR
+        split
+        · ring
+        · rename_i h0
+          have : maxL (f a) (as.map f) - maxL (g a) (as.map g) = 0 := le_antisymm (by linarith) (not_lt.mp h0)
+          linarith
+      rw [hd] at hne'
+      have := habs (maxL (g a) (as.map g))
+      have : maxL (f a) (as.map f) < maxL (g a) (as.map g) := by
+        by_contra hc
+        apply hne'
+        have : maxL (g a) (as.map g) - maxL (f a) (as.map f) = 0 := le_antisymm (by linarith [not_lt.mp hc]) (by linarith)
+        rw [this]
+        positivity
       linarith
 
 -- ------------------------------------------------------------------ monotone interpolation
